@@ -5,7 +5,7 @@ import ast
 
 from ..model import ENFA, NFA, DFA, EPS_TAG
 from .common import site_of
-from .flow import (code_nodes, own, both_answers, Oblig, calls, events, receivers, START, FINAL, STATES, SYMBOLS, DELTA_SYM, DELTA_EPS, SELF, P,
+from .flow import (code_nodes, helpers_of, own, both_answers, Oblig, calls, events, receivers, START, FINAL, STATES, SYMBOLS, DELTA_SYM, DELTA_EPS, SELF, P,
                    result_locs, deps_of, arg_deps, is_worklist_closure, comp)
 
 EXPLANATION = (
@@ -112,7 +112,7 @@ def run(eng, rep, tier):
         if ev.kind != "write" or ev.value is None:
             return None
         v = ev.value if ev.wkind in ("mutate:append", "mutate:appendleft") else \
-            ev.value.elem if ev.wkind in ("mutate:extend", "mutate:__iadd__", "augassign") else None
+            ev.value.elem if ev.wkind in ("mutate:extend", "mutate:__iadd__", "mutate:augassign", "augassign") else None
         return v if v is not None and v.items is not None and len(v.items) == 2 else None
     pushes = [ev for ev, _ in events(sa_, "write", own=True) if pushed(ev) is not None]
     shared = [ev for ev in pushes if any(l[1] and l[1][-1] == "[]" for l in pushed(ev).items[1].alias)]
@@ -154,7 +154,8 @@ def run(eng, rep, tier):
               "the length bound does not guard the expansion of paths inside the exploration loop", None,
               site=site_of(prog, fi, fi.node))
     yields = [(fnode, y) for fnode in fnodes for y in ast.walk(fnode) if isinstance(y, ast.Yield)]
-    guarded = all(_under_try_add(fnode, y) for fnode, y in yields)
+    hs = helpers_of(prog, fi)
+    guarded = all(_under_try_add(fnode, y, hs) for fnode, y in yields)
     ob.decide("R1", "C04.4", fi, "yield-guarded-by-duplicate-set", bool(yields) and guarded,
               "every yield is guarded by the insertion test into the set of yielded words",
               "a word can be yielded without passing the duplicate test", None, site=site_of(prog, fi, fi.node))
@@ -162,11 +163,44 @@ def run(eng, rep, tier):
     rep.floor = 30
 
 
-def _under_try_add(fn, node):
+def _guard_exprs(fn, test, depth=3):
+    """the test and, for the locals it reads, the expressions assigned to them (`is_new = helper(..); if is_new:`)"""
+    out, seen, frontier = [test], set(), [test]
+    for _ in range(depth):
+        names = {n.id for e in frontier for n in ast.walk(e) if isinstance(n, ast.Name)} - seen
+        seen |= names
+        frontier = []
+        for st in ast.walk(fn):
+            if isinstance(st, ast.Assign) and any(isinstance(t, ast.Name) and t.id in names for t in st.targets):
+                frontier.append(st.value)
+            elif isinstance(st, (ast.AnnAssign, ast.NamedExpr)) and st.value is not None and \
+                    isinstance(st.target, ast.Name) and st.target.id in names:
+                frontier.append(st.value)
+        out.extend(frontier)
+    return out
+
+
+def _is_insertion_test(call, helpers):
+    """a call of a helper that inserts one of its parameters' arguments into a collection parameter (`set_.add(element)`)
+    and reports whether it was new"""
+    nm = call.func.attr if isinstance(call.func, ast.Attribute) else getattr(call.func, "id", None)
+    h = (helpers or {}).get(nm)
+    if h is None:
+        return False
+    params = {a.arg for a in h.args.args}
+    adds = [c for c in ast.walk(h) if isinstance(c, ast.Call) and isinstance(c.func, ast.Attribute) and c.func.attr == "add"
+            and isinstance(c.func.value, ast.Name) and c.func.value.id in params]
+    return bool(adds) and any(isinstance(r, ast.Return) and r.value is not None for r in ast.walk(h))
+
+
+def _under_try_add(fn, node, helpers=None):
     from .flow import _path_to
     for anc in _path_to(fn, node):
         if isinstance(anc, ast.If):
-            txt = ast.unparse(anc.test)
-            if "try_add" in txt or " not in " in txt:
-                return True
+            for e in _guard_exprs(fn, anc.test):
+                for x in ast.walk(e):
+                    if isinstance(x, ast.Compare) and any(isinstance(o, (ast.NotIn, ast.In)) for o in x.ops):
+                        return True
+                    if isinstance(x, ast.Call) and _is_insertion_test(x, helpers):
+                        return True
     return False
